@@ -466,6 +466,26 @@ async fn run(scn: Value) -> Value {
                 let ok = std::fs::remove_file(&ctx.cfg_path).is_ok();
                 mockpg::log_event(&log, json!({"who": "harness", "ev": "config_deleted", "ok": ok}));
             }
+            // C14 (additive): wait until the mock backends have logged no open/ready/close event for `quiet_ms` (deadline `timeout_ms`):
+            // connections of replaced pool objects are closed asynchronously; observations are taken at a settled point
+            "settle" => {
+                let quiet = step["quiet_ms"].as_u64().unwrap_or(12);
+                let to = step["timeout_ms"].as_u64().unwrap_or(600);
+                let count = |log: &Log| log.lock().iter().filter(|e| e["ev"] == "open" || e["ev"] == "ready" || e["ev"] == "close").count();
+                let t0 = std::time::Instant::now();
+                let mut last = count(&log);
+                let mut since = std::time::Instant::now();
+                while (t0.elapsed().as_millis() as u64) < to {
+                    tokio::time::sleep(std::time::Duration::from_millis(2)).await;
+                    let n = count(&log);
+                    if n != last {
+                        last = n;
+                        since = std::time::Instant::now();
+                    } else if (since.elapsed().as_millis() as u64) >= quiet {
+                        break;
+                    }
+                }
+            }
             "reload_state" => {
                 let s = vh::reloadobs::observe_full(step.get("full").and_then(|x| x.as_bool()).unwrap_or(false));
                 mockpg::log_event(&log, json!({"who": "harness", "ev": "reload_state", "label": step["label"], "state": s}));
